@@ -145,8 +145,8 @@ def _ctor_cases(quick):
 def _check_live_types(case):
     """two or three in-place insertEntry / deleteEntry calls on ONE live tier with timestamps of several numeric types (float, int, exact
     rationals that no float represents): the constructor converts to float, insertEntry stores what it is given - still every state is well-formed"""
-    kind, ops = case
-    t = (IT if kind == "I" else PT)("t", [], 0.0, 4.0)
+    kind, ops = case[:2]
+    t = (IT if kind == "I" else PT)("t", [], 0.0, case[2] if len(case) > 2 else 4.0)
     viols = []
     n = 0
     for op in ops:
@@ -178,6 +178,14 @@ def _live_type_cases():
         for b in vals:
             for m2 in ("replace", "merge", "error"):
                 yield ("P", ((a, "error"), (b, m2), (a, "merge")))
+    # exact values that are DIFFERENT numbers and the same float (ints beyond 2**53, decimals / rationals closer together than one ulp): an
+    # interval between two of them has start < end where it is checked - and must still have it where it is stored
+    close = ((2 ** 53, 2 ** 53 + 1), (Fr(3, 2), Fr(3, 2) + Fr(1, 10 ** 30)), (2 ** 53 + 1, 2 ** 53 + 2), (Fr(1, 10), Fr(1, 10) + Fr(1, 10 ** 25)))
+    for a, b in close:
+        for m1 in ("error", "replace", "merge"):
+            yield ("I", ((a, b, m1),), 2.0 ** 55)
+            yield ("I", ((0.5, 1.0, "error"), (a, b, m1)), 2.0 ** 55)
+            yield ("I", ((a, b, m1), (a, b, "replace")), 2.0 ** 55)
 
 
 def parts(tier):
@@ -194,7 +202,8 @@ def parts(tier):
 
     ps.append(InputPart("live-insert-sequences-numeric-types", _live_type_cases, _check_live_types,
                         rule="all pairs of insertEntry calls (intervals over {0, 4/3, 2, 7/3, 3.0} with 4/3 and 7/3 as fractions.Fraction and 0, 2 as int) and "
-                             "triples for point tiers, applied in place to ONE live tier x collision modes: well-formed after every step",
+                             "triples for point tiers, applied in place to ONE live tier x collision modes: well-formed after every step; also intervals between two exact "
+                             "values (int beyond 2**53, Fraction) that are different numbers and the same float",
                         bounds={}))
 
     V = (0.0, 0.5, 1.0, 2.0, 3.0)
